@@ -852,7 +852,9 @@ class Fxp():
             if self.scale != 1:
                 if getattr(val, 'dtype', None) is not None and val.dtype.kind == 'c' and not isinstance(_scale, complex):
                     # (each component by the real scale: the complex division of numpy multiplies by a rounded reciprocal, (49+49j) / 49 is not 1+1j)
-                    val = (val.real / _scale) + 1j * (val.imag / _scale)
+                    _re, _im = np.asarray(val.real / _scale), np.asarray(val.imag / _scale)
+                    val = np.empty(_re.shape, dtype=val.dtype)      # (not re + 1j * im: 1j * inf has a nan real part)
+                    val.real, val.imag = _re, _im
                 else:
                     val = val / _scale
 
